@@ -320,17 +320,28 @@ Definition int_obtain (src : cksrc) (h : hist) (primes other : list Z) : IntRNS 
 (* the harness prints the reciprocals k = 1..n-1 reduced into [0, p_k) (gcdext's cofactor may be negative) *)
 Definition ck_canon (primes ck : list Z) : list Z := map (fun pc => snd pc mod fst pc) (tl (combine primes ck)).
 
-(* int: (mixrad, V, P, rns(a), ck, V2) *)
-Definition int_run (src : cksrc) (h : hist) (primes other residu : list Z) (a : Z)
-  : list Z * Z * Z * list Z * list Z * Z :=
+(* RingToRns of each integer of a list followed by RnsToRing of the residues just obtained, on one object *)
+Fixpoint int_back (S : IntRNS) (als : list Z) : IntRNS * list (list Z * Z) :=
+  match als with
+  | [] => (S, [])
+  | a :: tl =>
+      let rr := int_RingToRns S a in
+      let '(S1, w) := int_RnsToRing S rr in
+      let '(S2, rest) := int_back S1 tl in
+      (S2, (rr, w) :: rest)
+  end.
+
+(* int: (mixrad, V, P, [(rns(a_j), back_j)], ck, V2) *)
+Definition int_run (src : cksrc) (h : hist) (primes other residu als : list Z)
+  : list Z * Z * Z * list (list Z * Z) * list Z * Z :=
   let S0 := int_obtain src h primes other in
   let '(S1, mix) := int_RnsToMixedRadix S0 residu in
   let '(S2, V) := int_RnsToRing S1 residu in
   let '(S3, P) := int_product S2 in
-  let rr := int_RingToRns S3 a in
-  let '(S4, ck) := int_Reciprocals S3 in
+  let '(S3', rrs) := int_back S3 als in
+  let '(S4, ck) := int_Reciprocals S3' in
   let '(S5, V2) := int_RnsToRing S4 residu in
-  (mix, V, P, rr, ck_canon primes ck, V2).
+  (mix, V, P, rrs, ck_canon primes ck, V2).
 
 Definition dom_obtain (h : hist) (primes other : list Z) : DomRNS :=
   let warm S := fst (dom_RnsToRing S (ones (length (d_primes S)))) in
@@ -346,12 +357,34 @@ Definition dom_obtain (h : hist) (primes other : list Z) : DomRNS :=
   | Hsetwarm => dom_setPrimes (warm (dom_mk other)) primes
   end.
 
-Definition dom_run (h : hist) (primes other residu : list Z) (a : Z)
-  : list Z * Z * list Z * list Z * Z :=
+Fixpoint dom_back (S : DomRNS) (als : list Z) : DomRNS * list (list Z * Z) :=
+  match als with
+  | [] => (S, [])
+  | a :: tl =>
+      let rr := dom_RingToRns S a in
+      let '(S1, w) := dom_RnsToRing S rr in
+      let '(S2, rest) := dom_back S1 tl in
+      (S2, (rr, w) :: rest)
+  end.
+
+Definition dom_run (h : hist) (primes other residu als : list Z)
+  : list Z * Z * list (list Z * Z) * list Z * Z :=
   let S0 := dom_obtain h primes other in
   let '(S1, mix) := dom_RnsToMixedRadix S0 residu in
   let '(S2, V) := dom_RnsToRing S1 residu in
-  let rr := dom_RingToRns S2 a in
-  let '(S3, ck) := dom_Reciprocals S2 in
+  let '(S2', rrs) := dom_back S2 als in
+  let '(S3, ck) := dom_Reciprocals S2' in
   let '(S4, V2) := dom_RnsToRing S3 residu in
-  (mix, V, rr, tl ck, V2).
+  (mix, V, rrs, tl ck, V2).
+
+(* incremental lifting by the functor f over a list of (p_i, r_i), starting from x with modulus M; all intermediate values *)
+Fixpoint lift_chain (f : Z -> Z -> Z -> Z -> Z) (M x : Z) (todo : list (Z * Z)) : list Z :=
+  match todo with
+  | [] => []
+  | (p, r) :: tl => let y := f M p x (r mod p) in y :: lift_chain f (M * p) y tl
+  end.
+Definition lift_run (f : Z -> Z -> Z -> Z -> Z) (primes residu : list Z) : list Z :=
+  match primes, residu with
+  | p0 :: ps, r0 :: rs => (r0 mod p0) :: lift_chain f p0 (r0 mod p0) (combine ps rs)
+  | _, _ => []
+  end.
